@@ -366,6 +366,29 @@ def container_ids(K):
     return ids
 
 
+_HEAP_PAD = []
+
+
+def normalise_heap(per_class=1500):
+    """Exhaust the small-object free lists the process inherited, so that
+    which freed block a later allocation reuses depends on the allocations
+    and frees of the run itself and not on what the forking process happened
+    to free before (pymalloc hands out the blocks of a fresh pool in address
+    order and reuses freed blocks last-in-first-out).  The padding stays
+    alive for the rest of the process."""
+    for size in range(0, 480, 16):
+        _HEAP_PAD.append([bytes(size) for _ in range(per_class)])
+    class _P(object):
+        pass
+    objs = [_P() for _ in range(per_class * 2)]
+    for o in objs:
+        o.a = 1
+    _HEAP_PAD.append(objs)
+    _HEAP_PAD.append([[] for _ in range(per_class)])
+    _HEAP_PAD.append([{} for _ in range(per_class)])
+    _HEAP_PAD.append([set() for _ in range(per_class)])
+
+
 def assert_repo_import():
     import pyModelChecking
     f = os.path.realpath(pyModelChecking.__file__)
